@@ -312,3 +312,54 @@ impl ManyArgs for ManyArgsImpl {
         h
     }
 }
+
+/// boxed futures with every combination of auto-trait bounds the macro distinguishes (one output type each: the
+/// macro makes one wrapper per output type and trait)
+#[savefile_abi_exportable(version = 0)]
+pub trait Futs {
+    fn plain(&self, x: u32) -> std::pin::Pin<Box<dyn std::future::Future<Output = u32>>>;
+    fn send(&self, x: u32) -> std::pin::Pin<Box<dyn std::future::Future<Output = u64> + Send>>;
+    fn send_sync(&self, x: u32) -> std::pin::Pin<Box<dyn std::future::Future<Output = u16> + Send + Sync>>;
+    fn unpinned(&self, x: u32) -> Box<dyn std::future::Future<Output = u8> + Unpin>;
+    fn all(&self, x: u32) -> Box<dyn std::future::Future<Output = String> + Send + Sync + Unpin>;
+}
+#[derive(Default)]
+pub struct FutsImpl;
+impl Futs for FutsImpl {
+    fn plain(&self, x: u32) -> std::pin::Pin<Box<dyn std::future::Future<Output = u32>>> {
+        Box::pin(async move { x.wrapping_add(1) })
+    }
+    fn send(&self, x: u32) -> std::pin::Pin<Box<dyn std::future::Future<Output = u64> + Send>> {
+        Box::pin(async move { x as u64 + 2 })
+    }
+    fn send_sync(&self, x: u32) -> std::pin::Pin<Box<dyn std::future::Future<Output = u16> + Send + Sync>> {
+        Box::pin(async move { (x as u16).wrapping_add(3) })
+    }
+    fn unpinned(&self, x: u32) -> Box<dyn std::future::Future<Output = u8> + Unpin> {
+        Box::new(std::future::ready((x as u8).wrapping_add(4)))
+    }
+    fn all(&self, x: u32) -> Box<dyn std::future::Future<Output = String> + Send + Sync + Unpin> {
+        Box::new(std::future::ready(format!("v{}", x)))
+    }
+}
+
+/// drive a future to completion on this thread (the futures here never wait for anything)
+pub fn block_on<F: std::future::Future + ?Sized>(mut f: std::pin::Pin<&mut F>) -> Option<F::Output> {
+    use std::task::{Context, Poll, RawWaker, RawWakerVTable, Waker};
+    fn raw() -> RawWaker {
+        fn no(_: *const ()) {}
+        fn clone(_: *const ()) -> RawWaker {
+            raw()
+        }
+        static VT: RawWakerVTable = RawWakerVTable::new(clone, no, no, no);
+        RawWaker::new(std::ptr::null(), &VT)
+    }
+    let waker = unsafe { Waker::from_raw(raw()) };
+    let mut cx = Context::from_waker(&waker);
+    for _ in 0..1000 {
+        if let Poll::Ready(v) = f.as_mut().poll(&mut cx) {
+            return Some(v);
+        }
+    }
+    None
+}
